@@ -121,11 +121,21 @@ def check_kang_roundtrip(ctx, rng):
                 ctx.violation('kang-restore', 'restored Kang simulation gives a different receiver response', {'sides': sides}, None, 'bit-identical')
 
 
+def _op_failed(ctx, e):
+    sig = 'history-step-fails'
+    if e.op[0] == 'R' and 'brdf_incoming_directions' in repr(e.exc) and getattr(e, 'partial_walls', False):
+        sig = 'restore-fails:partially-set-walls'
+    ctx.violation(sig, 'a legal history step is refused by the implementation: %s' % e, {'op': list(map(str, e.op)), 'step': e.k}, repr(e.exc)[:300], 'the step succeeds')
+
+
 def run(ctx):
     try:
         _run(ctx)
     except histories.OpFailed as e:
-        ctx.violation('history-step-fails', 'a legal history step is refused by the implementation: %s' % e, {'op': list(map(str, e.op)), 'step': e.k}, repr(e.exc)[:300], 'the step succeeds')
+        sig = 'history-step-fails'
+        if e.op[0] == 'R' and 'brdf_incoming_directions' in repr(e.exc) and getattr(e, 'partial_walls', False):
+            sig = 'restore-fails:partially-set-walls'
+        ctx.violation(sig, 'a legal history step is refused by the implementation: %s' % e, {'op': list(map(str, e.op)), 'step': e.k}, repr(e.exc)[:300], 'the step succeeds')
 
 
 def _run(ctx):
@@ -138,7 +148,11 @@ def _run(ctx):
             lines, reals, opss = [], [], []
             for h in range(n_hist):
                 ops = histories.gen_history(ctx.rng, pool, with_restore=True)
-                r, snaps = histories.run_real(ops, pool, td)
+                try:
+                    r, snaps = histories.run_real(ops, pool, td)
+                except histories.OpFailed as e:
+                    _op_failed(ctx, e)
+                    continue
                 lines.append(histories.life_line(ops, pool))
                 reals.append(snaps)
                 opss.append(ops)
@@ -148,8 +162,9 @@ def _run(ctx):
                 if any(o[0] == 'R' for o in ops[:-1]):
                     ctx.nontriv([pool.describe(), ops])
                 ctx.sample({'pool': pool.describe(), 'ops': [list(map(str, o)) for o in ops]}, limit=2)
-            for h, line in enumerate(common.run_driver(lines)):
-                histories.compare(ctx, table, 'pool%d.h%d' % (pi, h), opss[h], reals[h], histories.parse_states(line))
+            if lines:
+                for h, line in enumerate(common.run_driver(lines)):
+                    histories.compare(ctx, table, 'pool%d.h%d' % (pi, h), opss[h], reals[h], histories.parse_states(line))
             check_roundtrip(ctx, pool, td, stages=None if (ctx.tier != 'quick' or pi == 0) else ['baked', 'exchanged'])
     check_kang_roundtrip(ctx, ctx.rng)
 
@@ -158,7 +173,10 @@ def oracle(ctx, budget_s=60):
     try:
         _oracle(ctx, budget_s)
     except histories.OpFailed as e:
-        ctx.violation('history-step-fails', 'a legal history step is refused by the implementation: %s' % e, {'op': list(map(str, e.op)), 'step': e.k}, repr(e.exc)[:300], 'the step succeeds')
+        sig = 'history-step-fails'
+        if e.op[0] == 'R' and 'brdf_incoming_directions' in repr(e.exc) and getattr(e, 'partial_walls', False):
+            sig = 'restore-fails:partially-set-walls'
+        ctx.violation(sig, 'a legal history step is refused by the implementation: %s' % e, {'op': list(map(str, e.op)), 'step': e.k}, repr(e.exc)[:300], 'the step succeeds')
 
 
 def _oracle(ctx, budget_s=60):
